@@ -27,10 +27,10 @@ for sid in sorted(os.listdir("/verif/seeded")):
     caught = [l.split()[1].split("=")[1] for l in out.splitlines() if l.startswith("VIOLATION")]
     details = [l[l.find("violation detail:") + 18:][:300] for l in out.splitlines() if "violation detail:" in l][:3]
     rcs = [l for l in out.splitlines() if l.startswith("== ")]
-    rec = {"repo_head": head, "tier": tier, "cmd": "git -C /repo apply seeded/%s/patch.diff; ./check run %s --tier %s; git -C /repo checkout -- ." % (sid, props.replace(",", " / "), tier),
+    rec = {"repo_head": head, "tier": tier, "verif_seed": int(os.environ.get("VERIF_SEED", "1") or "1"), "cmd": "git -C /repo apply seeded/%s/patch.diff; ./check run %s --tier %s; git -C /repo checkout -- ." % (sid, props.replace(",", " / "), tier),
            "result": "caught" if caught else "missed", "violations_for": sorted(set(caught)), "first_details": details, "wall_s": round(time.time() - t0, 1)}
     meta.setdefault("checks_run", [])
-    meta["checks_run"] = [r for r in meta["checks_run"] if not (r.get("tier") == tier and r.get("repo_head") == head and r.get("cmd") == rec["cmd"])] + [rec]
+    meta["checks_run"] = [r for r in meta["checks_run"] if not (r.get("tier") == tier and r.get("repo_head") == head and r.get("cmd") == rec["cmd"] and r.get("verif_seed", 1) == rec["verif_seed"])] + [rec]
     meta["caught_by"] = sorted(set(meta.get("caught_by", [])) | set(caught))
     json.dump(meta, open(mp, "w"), indent=1)
     print("%-8s %-7s %s %s" % (sid, rec["result"], ",".join(rec["violations_for"]), " ".join(rcs)), flush=True)
